@@ -1,8 +1,8 @@
 CONSTANTS
-  MaxI = 4
+  MaxI = 3
   MaxN = 3
-  MaxC = 3
-  MaxT = 8
+  MaxC = 2
+  MaxT = 7
   MinN = 1
   MinC = 1
   MaxSteps = 1000000
@@ -12,4 +12,5 @@ VIEW View
 INVARIANT TypeOK
 INVARIANT Conservation
 INVARIANT NeverTooMany
+INVARIANT NoTaskBeyondItsLargestShare
 PROPERTY Monotone
